@@ -28,7 +28,9 @@ RULE = ('always-run shape designs (every 2-input gate on identical arguments at 
         'logic-only multi-bit (gate ops + concat/select/memories), raw (generic + raw LogicNets with '
         'truncating destinations), directed (register/memory/input/const driving Outputs directly, '
         'high fan-out, one gate per design with all input pairs) -- x every single pass + ordered '
-        'pass pairs x random initial state and input sequence; a case = (design, pass sequence); '
+        'pass pairs, every pass twice, p-q-p and random sequences of length 3-5 (obligations after every step; '
+        'half of the cases with an explicit block= and a decoy working block) x random initial state and input '
+        'sequence; a case = (design, pass sequence); '
         'distinct by (design dump, passes, stimulus); non-trivial when the pass sequence changed the '
         'netlist or was rejected by its precondition as predicted')
 IMPORTS_SPEC = 'From PyRTL Require Import Netlist.Sem Netlist.WFDefs Netlist.SpecHarness.'
@@ -51,6 +53,8 @@ ASSUMPTIONS = ['the decidable hypotheses of the Props/C09.v theorems (Pass/Lower
                'unique wire names, dco_okb, fanout_okb) are evaluated on every design and must hold (a false one is '
                'reported as a broken tie); C09_two_way_fanout_preserves additionally assumes in-range cycle-start '
                'values (legal_run), which the generated stimulus satisfies',
+               'designs of weight > 400 (nets + select indices) get the single passes and pairs only (the quadratic '
+               'well-formedness models would take minutes under repeated one_bit_selects)',
                'ROM contents are tabulated at dump time',
                'initial register/memory values, inputs and default_value are within range',
                'zero-extension inside `dest <<= x` of a rewrite rule is unreachable on sanity-checked '
@@ -643,7 +647,7 @@ def pass_sequences(ctx, rng, kind, i=0):
     if quick:
         repeats = [repeats[(i + k) % 6] for k in (0, 3)] if i % 2 else [repeats[5], repeats[(i // 2) % 5]]
         pairs = rng.sample(pairs, 2)
-        longer = [rng.choice(sandwiches), [rng.randint(1, 6) for _ in range(rng.randint(3, 4))]]
+        longer = [rng.choice(sandwiches)] + ([[rng.randint(1, 6) for _ in range(rng.randint(3, 4))]] if i % 2 else [])
     else:
         pairs = rng.sample(pairs, 12 if small else 8)
         longer = rng.sample(sandwiches, 4 if small else 3) + \
@@ -688,7 +692,7 @@ def robust_eval(ctx, exprs, imports, tag, shard, jobs):
 def run(ctx):
     quick = ctx.tier == 'quick'
     plan = [('shapes', N_SHAPES)] + (
-        [('directed', 18), ('generic', 9), ('synth', 5), ('logic', 7), ('raw', 7)] if quick else
+        [('directed', 16), ('generic', 8), ('synth', 4), ('logic', 6), ('raw', 6)] if quick else
         [('directed', 60), ('generic', 90), ('synth', 40), ('logic', 60), ('raw', 60)])
     decoy, decoy_snap = make_decoy()
     decoy_fp = fingerprint(decoy)
